@@ -10,7 +10,7 @@ LINOP_ASSUME = ["bounds: atom catalogue and MaxStack/MaxLevel/MaxFlat of the the
                 "entries over Z[i]; flat sizes <= 16 (quick) / 24 (thorough)", "CPU numpy backend only"]
 
 PROPS = {
-    "C01": {"level": "model_checking", "engines": [LINOP, ("interp", "interp", "run")], "rule": LINOP_RULE, "assumptions": LINOP_ASSUME, "trusted": TLC_BASE},
+    "C01": {"level": "model_checking", "engines": [LINOP, ("interp", "interp", "run"), ("conv", "conv", "run")], "rule": LINOP_RULE, "assumptions": LINOP_ASSUME, "trusted": TLC_BASE},
     "C02": {"level": "model_checking", "engines": [LINOP, ("index_maps", "index_maps", "run")], "rule": LINOP_RULE, "assumptions": LINOP_ASSUME, "trusted": TLC_BASE},
     "C03": {"level": "model_checking", "engines": [LINOP], "rule": LINOP_RULE, "assumptions": LINOP_ASSUME, "trusted": TLC_BASE},
     "C04": {"level": "model_checking", "engines": [LINOP, ("interp", "interp", "run")], "rule": LINOP_RULE, "assumptions": LINOP_ASSUME, "trusted": TLC_BASE},
@@ -51,6 +51,10 @@ PROPS = {
             "rule": "one case per TLC state of Interp.tla (grid, kernel, widths, exact rational sample point); each replayed for real/complex data, scalar and per-axis spelling, batch axis, duplicated point, interpolate and gridding, and the two linops; all non-trivial",
             "assumptions": ["grids 1-D to 5, 2-D to 3x3, one 3-D grid (thorough: larger); coordinates multiples of 1/4 incl. ties and far outside; widths {1, 3/2, 2, 5/2, 3, 4}", "Kaiser-Bessel weights from scipy.special.i0 at the spec's exact arguments, tolerance 2e-6 relative (accuracy of the documented series)"],
             "trusted": TLC_BASE + ["Rat.tla", "scipy.special.i0"]},
+    "C08": {"level": "model_checking", "engines": [("conv", "conv", "run")],
+            "rule": "one case per TLC state of Conv.tla (D, data/filter extents, strides, mode, channels, batch) incl. inadmissible ones; each replayed with complex and real Gaussian-integer arrays on convolve, both adjoints and the Convolve* linops; all non-trivial",
+            "assumptions": ["D=1: extents 1..4, strides 1..3, 5 channel settings, batch; D=2: extents 1..3; D=3: extents 1..2 (thorough 1..3)", "integer-valued data: comparisons are exact"],
+            "trusted": TLC_BASE},
     "C09": {
         "level": "model_checking",
         "engines": [("index_maps", "index_maps", "run")],
@@ -65,6 +69,8 @@ PROPS = {
 HOOK_COMMITS = ["609775d"]
 
 ENGINES = [
+    {"name": "conv", "path": "harness/engines/conv.py + spec/Conv.tla", "serves_properties": ["C08", "C01"],
+     "kind_free_text": "TLC enumeration of convolution configurations as bilinear index relations + replay of convolve, adjoints, rejection and Convolve* linops"},
     {"name": "interp", "path": "harness/engines/interp.py + spec/Interp.tla", "serves_properties": ["C07", "C01", "C04"],
      "kind_free_text": "TLC enumeration of interpolation windows in exact rationals + replay of interpolate/gridding and the Interpolate/Gridding linops"},
     {"name": "fourier", "path": "harness/engines/fourier.py + spec/Fourier.tla", "serves_properties": ["C05"],
@@ -121,7 +127,7 @@ MANIFEST_TEXT = {
 }
 
 NOT_APPLICABLE = {p: "check not built yet in this round (planned, see DESIGN.md section 5)" for p in
-                  ["C06", "C08", "C10", "C16", "C17", "C19"]}
+                  ["C06", "C10", "C16", "C17", "C19"]}
 
 MANIFEST_TEXT["C18"] = {
     "text": "PoissonSearch.tla models the slope bisection on a float lattice with an arbitrary (non-monotone) acceleration function; TLC checks OkIsWithinTol and the liveness property Terminates (the loop without the collapse test is kept as a negative control that must fail). poisson() is run on the real code with _poisson wrapped under a watchdog; every call (probes as slope ranks + integer facts about the mask, RNG state crc, reproducibility memo) is validated by TLC against PoissonTrace.tla.",
@@ -164,3 +170,9 @@ MANIFEST_TEXT["C07"] = {
     "design_ref": "DESIGN.md section 5 C07",
     "note": "Trusted: TLC, Rat.tla, scipy.special.i0 (KB tolerance 2e-6). 3-D grids: one in quick, three in thorough.",
     "technique": "TLA+ exact-rational kernel windows (TLC) + spec-to-code replay"}
+
+MANIFEST_TEXT["C08"] = {
+    "text": "Conv.tla defines convolution per axis as the index relation p -> {(t, u) : u = off + p*s - t} (full / valid offsets, strides), multi-D by product, channels by summation, and the admissibility rule of valid mode; TLC checks the output-length formulas, that full mode uses every pair once, that valid mode keeps only complete overlaps, flipping, and rejected <=> mixed on every enumerated configuration. The relation is contracted against Gaussian-integer arrays (exact) and compared with convolve, convolve_data_adjoint, convolve_filter_adjoint (shapes and values), inadmissible configurations must raise, and the Convolve* linops are probed for adjointness.",
+    "design_ref": "DESIGN.md section 5 C08",
+    "note": "Trusted: TLC, the harness's contraction of the relation. Extents bounded as listed in assumptions.",
+    "technique": "TLA+ bilinear index relation (TLC exhaustive) + spec-to-code replay"}
